@@ -228,19 +228,41 @@ static void OpenDB(char *dbpath, sqlite3 **db)
 static void DropAllTables(sqlite3 *db)
 {
     int rc;
+    int lenght;
+    size_t i;
     char *err_msg = 0;
-    const char *dropAllObjectsSQL = "SELECT 'DROP TABLE IF EXISTS ' || name || ';' FROM sqlite_master WHERE type = 'table';";
-    /* Execute SQL statement */
-    rc = sqlite3_exec(db, dropAllObjectsSQL, 0, 0, &err_msg);
+    char *sql;
+    sqlite3_stmt* stmt;
+    strvector *tables;
+    const char *listTablesSQL = "SELECT name FROM sqlite_master WHERE type = 'table' AND name NOT LIKE 'sqlite_%';";
+
+    /* Collect the table names first: a table cannot be dropped while the
+     * statement reading sqlite_master is still active.
+     */
+    rc = sqlite3_prepare_v2(db, listTablesSQL, -1, &stmt, 0);
     if(rc != SQLITE_OK){
-        fprintf(stderr, "SQL error: %s\n", err_msg);
-        sqlite3_free(err_msg);
+        fprintf(stderr, "SQL error: %s\n", sqlite3_errmsg(db));
+        return;
     }
-    #ifdef DEBUG
-    else{
-        fprintf(stdout, "Table created successfully\n");
+
+    initStrVector(&tables);
+    while(sqlite3_step(stmt) == SQLITE_ROW){
+        StrVectorAppend(tables, (char*)sqlite3_column_text(stmt, 0));
     }
-    #endif
+    sqlite3_finalize(stmt);
+
+    for(i = 0; i < tables->size; i++){
+        lenght = snprintf(NULL, 0, "DROP TABLE IF EXISTS \"%s\";", getStr(tables, i));
+        sql = xmalloc(lenght+1);
+        snprintf(sql, lenght+1, "DROP TABLE IF EXISTS \"%s\";", getStr(tables, i));
+        rc = sqlite3_exec(db, sql, 0, 0, &err_msg);
+        if(rc != SQLITE_OK){
+            fprintf(stderr, "SQL error: %s\n", err_msg);
+            sqlite3_free(err_msg);
+        }
+        xfree(sql);
+    }
+    DelStrVector(&tables);
 }
 
 static void CloseDB(sqlite3 *db)
